@@ -647,6 +647,20 @@ protected:
     }
   }
 
+  /// \brief Terminal close from the request-framing path (I/O thread): forget the
+  /// session FIRST, then close. Transport::close only enqueues the close, so the
+  /// engine can still deliver reads that were already pending (and closeSession
+  /// is a no-op during shutdown); with the session gone handleIncomingData drops
+  /// them instead of appending them behind a buffer that has a hole in it.
+  void rejectSession(SessionId sid)
+  {
+    {
+      std::lock_guard<std::mutex> lock(_sessionMutex);
+      _sessionInfo.erase(sid);
+    }
+    closeSession(sid);
+  }
+
   /// \brief Write raw bytes to a session for an upgraded/SSE stream. Takes
   /// _mutex briefly itself (like sendRaw) — SAFE because, under the narrowed
   /// dispatch lock, the calling handler holds no HttpServer lock. The bytes are
@@ -746,7 +760,7 @@ protected:
     {
       // closeSession guards '_transport && !_shutdown' under _mutex (no unguarded
       // raw _transport deref vs stop()'s reset), with _sessionMutex NOT held.
-      closeSession(sid);
+      rejectSession(sid);
       return;
     }
 
@@ -766,7 +780,7 @@ protected:
                                   std::to_string(sid) + " - closing connection");
         // No lock held here; closeSession guards '_transport && !_shutdown' under
         // _mutex (was an unguarded raw _transport->close — UAF risk vs stop()).
-        closeSession(sid);
+        rejectSession(sid);
         return;
       }
 
@@ -825,7 +839,7 @@ protected:
                 iora::core::Logger::error("HttpServer: Body size limit exceeded for session " +
                                           std::to_string(sid) + " - closing connection");
                 // No lock held; guarded close (was unguarded raw _transport->close).
-                closeSession(sid);
+                rejectSession(sid);
                 return;
               }
             }
@@ -835,7 +849,7 @@ protected:
                                         "content-length header for session " +
                                         std::to_string(sid) + " - closing connection");
               // No lock held; guarded close (was unguarded raw _transport->close).
-              closeSession(sid);
+              rejectSession(sid);
               return;
             }
           }
@@ -883,7 +897,7 @@ protected:
         iora::core::Logger::error("HttpServer: unsupported Transfer-Encoding (final coding is not "
                                   "chunked) for session " + std::to_string(sid) +
                                   " - closing connection");
-        closeSession(sid);
+        rejectSession(sid);
         return;
       }
 
@@ -893,7 +907,7 @@ protected:
         // Content-Length is a request-smuggling vector - reject it.
         iora::core::Logger::error("HttpServer: both Content-Length and Transfer-Encoding "
                                   "for session " + std::to_string(sid) + " - closing connection");
-        closeSession(sid);
+        rejectSession(sid);
         return;
       }
 
@@ -905,7 +919,7 @@ protected:
         {
           iora::core::Logger::error("HttpServer: malformed chunked body for session " +
                                     std::to_string(sid) + " - closing connection");
-          closeSession(sid);
+          rejectSession(sid);
           return;
         }
         if (requestEndPos == std::string::npos)
